@@ -200,6 +200,7 @@ structure DState where
   candOwn : Nat := 0
   candAsFound : Nat := 0    -- lines explained by the as-found metrics transcription
   candRepaired : Nat := 0
+  hasContracts : Bool := false  -- the host holds contracts in this history
   strictF1 : Bool := false  -- `--strict-formation1`
   f1RefusedBroadcast : Nat := 0  -- v1 formation sets the pool refused and the host broadcast nevertheless
   actLoops : Nat := 0       -- ProcessActions loops (index × kind) checked against `actsOf`
@@ -496,7 +497,12 @@ def step (d : DState) (l : Line) : DState × List Verdict :=
           else if lookup l.obs "comp" == some "contracts" then s!"c01/l2_update_never_fails/{cause}"
           else if ((lookup l.obs "comp").getD "").startsWith "actions_" then s!"c06/process_actions_never_fails/{(lookup l.obs "comp").getD ""}/{cause}"
           else s!"c16/update_never_fails/{cause}"
-        ({ d1 with dead := true }, [.monitor name res])
+        -- a failed chain update leaves every part of the host behind the best chain: with contracts in the store the
+        -- contract state does not follow the best chain either (C01), whichever part of the batch tripped first
+        let comp := (lookup l.obs "comp").getD "other"
+        let also : List Verdict := if d.hasContracts && !(name.startsWith "c01/") then
+          [.monitor s!"c01/l2_update_never_fails/{comp}/{cause}" res] else []
+        ({ d1 with dead := true }, [.monitor name res] ++ also)
       else
       -- ---- observations
       match getUtxos l.obs "utxo", getOEvs l.obs "ev", getNat l.obs "bal", getNat l.obs "imm",
@@ -632,6 +638,7 @@ def step (d : DState) (l : Line) : DState × List Verdict :=
           dead := !vs.isEmpty && !onlyAnn,
           annDead := d.annDead || !annMons.isEmpty,
           bestChainCmp := d1.bestChainCmp + cviews.length,
+          hasContracts := d1.hasContracts || !cviews.isEmpty,
           actLoops := d1.actLoops + nAr,
           f1RefusedBroadcast := d1.f1RefusedBroadcast + nF1,
           annSet := d1.annSet + (if annBlocksApplied.isEmpty then 0 else 1),
